@@ -343,19 +343,57 @@ func c14Serve(c *Ctx, fn *ssa.Function, decPkg, short string) {
 			"C14-K3", key("handler spawn only after decode success"), c.P.ipos(g), "go block unreachable without the decode-success edge",
 			"a handler is started on a path that did not pass the decode-success edge")
 		// --- callee and arguments
-		hv := sx.Of(g.Call.Value).String()
+		// idiom: go func() { s.handler(conn, peer, m) }() — judged through the closure body, provided every
+		// captured variable is allocated per iteration (inside the loop) or never reassigned
+		callCommon := g.Common()
+		if mc, isMC := g.Call.Value.(*ssa.MakeClosure); isMC && len(g.Call.Args) == 0 {
+			cf := mc.Fn.(*ssa.Function)
+			var inner *ssa.Call
+			nCalls := 0
+			allInstrs(cf, func(in ssa.Instruction) {
+				if cl, ok := in.(*ssa.Call); ok {
+					if _, isB := cl.Call.Value.(*ssa.Builtin); !isB {
+						nCalls++
+						inner = cl
+					}
+				}
+			})
+			if nCalls != 1 || inner == nil {
+				r.Undecided("C14-K3", key("handler closure shape"), c.P.ipos(g), "the spawned closure does not consist of exactly one call")
+				continue
+			}
+			for _, b := range mc.Bindings {
+				al, ok := b.(*ssa.Alloc)
+				if !ok {
+					continue
+				}
+				nStores := 0
+				for _, ref := range *al.Referrers() {
+					if st, ok := ref.(*ssa.Store); ok && st.Addr == ssa.Value(al) {
+						nStores++
+					}
+				}
+				perIter := loop[al.Block()]
+				entryOnly := !loop[al.Block()] && nStores <= 1 && !storedInLoop(al, loop)
+				r.Check(perIter || entryOnly, "C14-K4", key("variable "+al.Comment+" captured by the handler goroutine is private to the iteration"), c.P.ipos(al), "captured cell allocated inside the loop (or never reassigned in it)",
+					"the handler goroutine reads variable "+al.Comment+", which is declared outside the serve loop and reassigned by later iterations: a handler can see another datagram's message or peer")
+			}
+			callCommon = inner.Common()
+		}
+		gCallValue, gCallArgs := callCommon.Value, callCommon.Args
+		hv := sx.Of(gCallValue).String()
 		okH := strings.HasPrefix(hv, "field[") && strings.HasSuffix(hv, "]("+sx.Of(recv).String()+")") && strings.Contains(strings.ToLower(hv), "handler")
-		if _, isSig := g.Call.Value.Type().Underlying().(*types.Signature); !isSig || g.Call.IsInvoke() {
+		if _, isSig := gCallValue.Type().Underlying().(*types.Signature); !isSig || callCommon.IsInvoke() {
 			okH = false
 		}
 		r.Check(okH, "C14-K3", key("spawned function is the server's handler field"), c.P.ipos(g), "symx", "go target is "+hv)
-		if len(g.Call.Args) != 3 {
+		if len(gCallArgs) != 3 {
 			r.Undecided("C14-K3", key("handler arity"), c.P.ipos(g), "handler call does not have 3 arguments")
 			continue
 		}
-		a0 := sx.Of(g.Call.Args[0]).String()
+		a0 := sx.Of(gCallArgs[0]).String()
 		r.Check(a0 == wantConn, "C14-K3", key("handler arg0 is s.conn"), c.P.ipos(g), "symx", "arg0 is "+a0)
-		a2 := sx.Of(g.Call.Args[2]).String()
+		a2 := sx.Of(gCallArgs[2]).String()
 		want2 := ""
 		if msg != nil {
 			want2 = sx.Of(msg).String()
@@ -363,14 +401,14 @@ func c14Serve(c *Ctx, fn *ssa.Function, decPkg, short string) {
 		r.Check(a2 == want2, "C14-K3", key("handler arg2 is the message decoded in this iteration"), c.P.ipos(g), "symx", "arg2 is "+a2+", want "+want2)
 		peer := extractOf(read, 1)
 		if short == "server6" {
-			a1 := sx.Of(g.Call.Args[1]).String()
+			a1 := sx.Of(gCallArgs[1]).String()
 			want1 := ""
 			if peer != nil {
 				want1 = sx.Of(peer).String()
 			}
 			r.Check(a1 == want1, "C14-K3", key("handler arg1 is the sender returned by ReadFrom"), c.P.ipos(g), "symx", "arg1 is "+a1+", want "+want1)
 		} else {
-			c14PeerRewrite(c, fn, g, peer, key)
+			c14PeerRewrite(c, fn, g, gCallArgs[1], peer, key)
 		}
 	}
 
@@ -411,39 +449,66 @@ func isNilCmp(cond ssa.Value, v ssa.Value, op token.Token) bool {
 	return (b.X == v && isNil(b.Y)) || (b.Y == v && isNil(b.X))
 }
 
-func c14PeerRewrite(c *Ctx, fn *ssa.Function, g *ssa.Go, peer *ssa.Extract, key func(string) string) {
+func c14PeerRewrite(c *Ctx, fn *ssa.Function, g *ssa.Go, arg ssa.Value, peer *ssa.Extract, key func(string) string) {
 	r := c.R
 	sx := c.Sx()
-	arg := g.Call.Args[1]
 	if mi, ok := arg.(*ssa.MakeInterface); ok {
 		arg = mi.X
 	}
-	phi, ok := arg.(*ssa.Phi)
-	if !ok {
-		r.Undecided("C14-K5", key("peer argument shape"), c.P.ipos(g), "peer argument is not a two-way merge of sender and rewritten address: "+sx.Of(arg).String())
+	// candidates of the peer value: edges of a φ, or the stores into a captured variable
+	type cand struct {
+		v   ssa.Value
+		blk *ssa.BasicBlock // block from which the candidate flows on (φ predecessor / store block)
+	}
+	var cands []cand
+	var joinBlock *ssa.BasicBlock
+	switch x := arg.(type) {
+	case *ssa.Phi:
+		joinBlock = x.Block()
+		for i, e := range x.Edges {
+			cands = append(cands, cand{e, x.Block().Preds[i]})
+		}
+	case *ssa.UnOp:
+		var cell *ssa.Alloc
+		if fv, ok := x.X.(*ssa.FreeVar); ok {
+			if b := sx.binding(fv); b != nil {
+				cell, _ = b.(*ssa.Alloc)
+			}
+		} else if al, ok := x.X.(*ssa.Alloc); ok {
+			cell = al
+		}
+		if cell != nil {
+			for _, ref := range *cell.Referrers() {
+				if st, ok := ref.(*ssa.Store); ok && st.Addr == ssa.Value(cell) {
+					cands = append(cands, cand{st.Val, st.Block()})
+				}
+			}
+		}
+		joinBlock = g.Block()
+	}
+	if len(cands) != 2 {
+		r.Undecided("C14-K5", key("peer argument shape"), c.P.ipos(g), "peer argument is not a two-way choice between the sender and a rewritten address: "+sx.Of(arg).String())
 		return
 	}
 	// locate the comma-ok assertion value
 	var upeer ssa.Value
 	var alloc *ssa.Alloc
-	var allocPred, keepPreds []*ssa.BasicBlock
-	for i, e := range phi.Edges {
-		switch x := e.(type) {
+	var rewriteBlk *ssa.BasicBlock
+	var keepPreds []*ssa.BasicBlock
+	for _, cd := range cands {
+		switch x := cd.v.(type) {
 		case *ssa.Extract:
 			if ta, ok := x.Tuple.(*ssa.TypeAssert); ok && x.Index == 0 && peer != nil && ta.X == ssa.Value(peer) && namedIs(ta.AssertedType, "net", "UDPAddr") {
 				upeer = x
-				keepPreds = append(keepPreds, phi.Block().Preds[i])
+				keepPreds = append(keepPreds, cd.blk)
 				continue
 			}
-			r.Violation("C14-K5", key("peer source"), c.P.ipos(g), "peer candidate is not the sender returned by ReadFrom: "+sx.Of(e).String())
+			r.Violation("C14-K5", key("peer source"), c.P.ipos(g), "peer candidate is not the sender returned by ReadFrom: "+sx.Of(cd.v).String())
 		case *ssa.Alloc:
-			if alloc != nil && alloc != x {
-				r.Undecided("C14-K5", key("peer argument shape"), c.P.ipos(g), "several rewritten addresses")
-			}
 			alloc = x
-			allocPred = append(allocPred, phi.Block().Preds[i])
+			rewriteBlk = cd.blk
 		default:
-			r.Violation("C14-K5", key("peer source"), c.P.ipos(g), "peer candidate is neither the sender nor a fresh UDPAddr: "+sx.Of(e).String())
+			r.Violation("C14-K5", key("peer source"), c.P.ipos(g), "peer candidate is neither the sender nor a fresh UDPAddr: "+sx.Of(cd.v).String())
 		}
 	}
 	if upeer == nil || alloc == nil {
@@ -509,19 +574,24 @@ func c14PeerRewrite(c *Ctx, fn *ssa.Function, g *ssa.Go, peer *ssa.Extract, key 
 	tZero := Edge{zeroIf.Block(), zeroIf.Block().Succs[0]}
 	fZero := Edge{zeroIf.Block(), zeroIf.Block().Succs[1]}
 	// rewrite happens only if one of the tests is true
-	r.Check(mustPassEdges(fn, alloc.Block(), tNil, tZero), "C14-K5", key("rewrite only when sender has no address"), c.P.ipos(alloc), "alloc unreachable without a true edge of the two tests",
-		"the peer is rewritten to broadcast on a path where the sender has a real address")
-	// sender kept only if both false: the phi's keep-predecessors unreachable without fZero and without fNil
-	for _, kp := range keepPreds {
-		okk := mustPassEdges(fn, kp, fZero) && mustPassEdges(fn, kp, fNil)
-		// kp may be the zeroIf block itself (edge kp→phi block is fZero)
-		if kp == zeroIf.Block() {
-			okk = zeroIf.Block().Succs[1] == phi.Block() && mustPassEdges(fn, kp, fNil)
-		}
-		r.Check(okk, "C14-K5", key("sender kept only when it has a non-zero address"), c.P.ipos(phi), "keep edge requires both tests false",
-			"the sender's own address is passed on although it is nil or 0.0.0.0")
+	if rewriteBlk == nil {
+		rewriteBlk = alloc.Block()
 	}
-	_ = allocPred
+	r.Check(mustPassEdges(fn, rewriteBlk, tNil, tZero), "C14-K5", key("rewrite only when sender has no address"), c.P.ipos(alloc), "rewrite unreachable without a true edge of the two tests",
+		"the peer is rewritten to broadcast on a path where the sender has a real address")
+	// the sender's own address is passed on only if both tests are false: every path to the spawn that
+	// avoids the rewrite passes the false edge of each test
+	blocked := map[*ssa.BasicBlock]bool{rewriteBlk: true}
+	okKeep := true
+	for _, e := range []Edge{fNil, fZero} {
+		if reachFrom(fn.Blocks[0], map[Edge]bool{e: true}, blocked)[g.Block()] {
+			okKeep = false
+		}
+	}
+	r.Check(okKeep, "C14-K5", key("sender kept only when it has a non-zero address"), c.P.ipos(g), "paths avoiding the rewrite pass both false edges",
+		"the sender's own address is passed on although it is nil or 0.0.0.0")
+	_ = keepPreds
+	_ = joinBlock
 }
 
 func c14Close(c *Ctx, fn *ssa.Function, read *ssa.Call, key func(string) string) {
@@ -536,7 +606,7 @@ func c14Close(c *Ctx, fn *ssa.Function, read *ssa.Call, key func(string) string)
 			return
 		}
 		f := d.Call.StaticCallee()
-		if f == nil || f.Name() != "Close" || len(d.Call.Args) == 0 || d.Call.Args[0] != ssa.Value(recv) {
+		if f == nil || f.Name() != "Close" || len(d.Call.Args) == 0 || sx.Of(d.Call.Args[0]).String() != sx.Of(recv).String() {
 			return
 		}
 		if d.Block().Dominates(read.Block()) && !inCycle(d.Block()) {
@@ -575,4 +645,14 @@ func c14Close(c *Ctx, fn *ssa.Function, read *ssa.Call, key func(string) string)
 		}
 	}
 	r.Check(okAll, "C14-K6", shortName(closeFn)+": closes the connection on every path", c.P.pos(closeFn.Pos()), "conn.Close dominates every return", "Close does not close s.conn on every path")
+}
+
+// storedInLoop: the cell is assigned inside the loop
+func storedInLoop(al *ssa.Alloc, loop map[*ssa.BasicBlock]bool) bool {
+	for _, ref := range *al.Referrers() {
+		if st, ok := ref.(*ssa.Store); ok && st.Addr == ssa.Value(al) && loop[st.Block()] {
+			return true
+		}
+	}
+	return false
 }
